@@ -35,14 +35,14 @@ def run(ctx):
     ctx.rule('C04.R7', 'direction dispatch and host:path parsing', floor=5)
     ctx.rule('C04.R8', 'the remote listing is used only when the listing command succeeded (a partial listing is never taken for the tree)', floor=1)
     eff = Effects(F)
-    r1(ctx, F)
-    C15.delete_sources(ctx, F, 'C04.R1')
-    r2(ctx, F, eff)
-    r4(ctx, F)
-    r5(ctx, F, eff)
-    r6(ctx, F)
-    r7(ctx, F)
-    r8(ctx, F)
+    ctx.attempt(r1, ctx, F)
+    ctx.attempt(C15.delete_sources, ctx, F, 'C04.R1')
+    ctx.attempt(r2, ctx, F, eff)
+    ctx.attempt(r4, ctx, F)
+    ctx.attempt(r5, ctx, F, eff)
+    ctx.attempt(r6, ctx, F)
+    ctx.attempt(r7, ctx, F)
+    ctx.attempt(r8, ctx, F)
 
 
 def capture_origins(F, body, op):
